@@ -349,6 +349,41 @@ func runOpts(c *Ctx) {
 					bad = what + " at " + p.InstrPos(u) + " without a dominating IsValid()/non-nil check"
 				}
 			}
+			// an invalid value skips only itself: inside a loop over several values the invalid branch must not leave the function
+			for _, u := range *rv.Referrers() {
+				vc, isC := u.(*ssa.Call)
+				if !isC || core.CalleeName(vc.Common()) != core.RVIsValid {
+					continue
+				}
+				for _, r2 := range *vc.Referrers() {
+					iff, isIf := r2.(*ssa.If)
+					if !isIf {
+						continue
+					}
+					// is the check inside a loop over the values?
+					var header *ssa.BasicBlock
+					for _, lp := range naturalLoops(f) {
+						if lp.body[iff.Block()] {
+							header = lp.header
+						}
+					}
+					if header == nil {
+						continue
+					}
+					invalid := iff.Block().Succs[1]
+					leaves := false
+					for _, ret := range core.Returns(f) {
+						if invalid == header {
+							break // straight back to the loop header: the loop continues
+						}
+						if core.ReachableAvoiding(invalid, ret.Block(), map[*ssa.BasicBlock]bool{header: true}) || invalid == ret.Block() {
+							leaves = true
+						}
+					}
+					c.R.Add("REFLVALID", fmt.Sprintf("%s|invalid-skips-only-itself", core.FuncName(f)), core.FuncName(f), p.InstrPos(iff), !leaves,
+						"in an option that takes several values a nil value is skipped and the remaining values are still applied", ternary(!leaves, "the loop continues", "the option returns at the first nil value, dropping the rest"))
+				}
+			}
 			if uses == 0 {
 				return
 			}
